@@ -209,8 +209,10 @@ class Violation(Exception):
 class Run(object):
     """Executes concrete operations against one object and checks the clauses."""
 
-    def __init__(self, cfg, pristine=None, pristine_rate=0.0, rng_aux=None):
+    def __init__(self, cfg, pristine=None, defer=False, install_plane=True):
         self.cfg = cfg
+        self.defer = defer          # evaluate references at the end of the run (multi-object runs)
+        self.pending = []
         self.cls = cfg["cls"]
         self.const = cfg["const"]
         self.pristine = pristine
@@ -228,14 +230,14 @@ class Run(object):
         self.dirty = False         # a state-changing op or a fired fault since the previous checked read
         self.after_failed_read = False
         self.plane = FaultPlane(self.cls)
-        self.plane.install()
+        if install_plane:
+            self.plane.install()
         self.init_error = None
         self.p = None
         try:
             self.p = sut.construct(self.cls, initial_snapshot(cfg), self.const)
         except Exception as e:
             self.init_error = type(e).__name__
-        self._pristine_every = pristine_rate
 
     def close(self):
         self.plane.remove()
@@ -298,10 +300,11 @@ class Run(object):
             self.bump("pristine_refs")
         return ref, pref
 
-    def step(self, op, aname=None, want_pristine=False):
+    def step(self, op, aname=None, want_pristine=False, idx=None):
         """Apply one op; returns None or a Violation (first violation ends the run)."""
         p = self.p
-        idx = len(self.ops)
+        if idx is None:
+            idx = len(self.ops)
         self.ops.append(op)
         k = op["op"]
         pre_state = self.abstate()
@@ -354,7 +357,6 @@ class Run(object):
             snap = sut.snapshot(self.cls, p)
             query = {"kind": "psd"} if k == "read" else (
                 {"kind": "conv", "sides": op["sides"]} if k == "conv" else {"kind": "power"})
-            ref, pref = self._reference(snap, query, want_pristine)
             self.checked_reads += 1
             self.bump("reads_checked")
             if self.dirty:
@@ -367,12 +369,11 @@ class Run(object):
             if self.after_failed_read and exc is None:
                 self.bump("probe:failed_read_then_successful_read")
             self.after_failed_read = exc is not None
-            entry["ref"] = ref[0]
-            viol = self._compare(idx, k, op, exc, val, ref, "fresh object (same process)")
-            if viol is None and pref is not None:
-                viol = self._compare(idx, k, op, exc, val, pref, "fresh object (pristine process)")
-                if viol is not None:
-                    viol.clause = "hidden_state:" + viol.clause
+            rec = (idx, k, op, exc, None if exc is not None else np.array(val, copy=True), snap, query, want_pristine)
+            if self.defer:
+                self.pending.append(rec)
+            else:
+                viol = self._check_against_reference(rec)
             if viol is None and exc is None and k == "read":
                 v = np.asarray(val)
                 entry["psd"] = arr_digest(v)
@@ -412,6 +413,26 @@ class Run(object):
         if viol is not None:
             self.violation = viol
         return viol
+
+    def _check_against_reference(self, rec):
+        idx, k, op, exc, val, snap, query, want_pristine = rec
+        ref, pref = self._reference(snap, query, want_pristine)
+        viol = self._compare(idx, k, op, exc, val, ref, "fresh object (same process)")
+        if viol is None and pref is not None:
+            viol = self._compare(idx, k, op, exc, val, pref, "fresh object (pristine process)")
+            if viol is not None:
+                viol.clause = "hidden_state:" + viol.clause
+        return viol
+
+    def finalize(self):
+        """Deferred mode: evaluate the references of all recorded reads, in order."""
+        pend, self.pending = self.pending, []
+        for rec in pend:
+            v = self._check_against_reference(rec)
+            if v is not None:
+                self.violation = v
+                return v
+        return None
 
     def _check_reassign(self, idx, v, p):
         """Re-assigning unchanged values must not alter the result.  The library documents that a
@@ -753,6 +774,18 @@ def run_systematic(seed, index, length, core_only, pristine=None, pristine_final
 
 def replay(cfg, ops, pristine=None, pristine_final=False):
     """Re-execute a concrete operation list (no PRNG involved)."""
+    if "multi" in cfg:
+        run = MultiRun(cfg, pristine=pristine)
+        try:
+            if run.init_error is not None:
+                return run
+            for i, op in enumerate(ops):
+                if run.step(op, None, want_pristine=pristine_final and op["op"] == "read"):
+                    return run
+            run.finalize()
+            return run
+        finally:
+            run.close()
     run = Run(cfg, pristine=pristine)
     try:
         if run.init_error is not None:
@@ -797,6 +830,8 @@ def run_index(stratum, index, base_seed, ctx):
     if stratum in STRATA:
         _, length, core = STRATA[stratum]
         run = run_systematic(seed, index, length, core, pristine=pristine, pristine_final=pf)
+    elif stratum.startswith("M:"):
+        run = run_multi(seed, stratum[2:], pristine=pristine, pristine_final=pf)
     else:
         assert stratum.startswith("B:")
         mode = stratum[2:]
@@ -808,6 +843,13 @@ def run_index(stratum, index, base_seed, ctx):
 
 def describe(cfg, ops):
     """Short human-readable form of a history (used in samples and messages)."""
+    if "multi" in cfg:
+        heads = ["obj%d=%s" % (j, describe(c, []).split(" :: ")[0]) for j, c in enumerate(cfg["multi"])]
+        body = []
+        for o in ops:
+            inner = {k: v for k, v in o.items() if k != "o"}
+            body.append("obj%d.%s" % (o.get("o", 0), describe(cfg["multi"][0], [inner]).split(" :: ")[1]))
+        return " | ".join(heads) + " :: " + "; ".join(body)
     out = []
     for o in ops:
         k = o["op"]
@@ -834,6 +876,8 @@ def describe(cfg, ops):
 
 def culprit(cfg, ops):
     """Abstract descriptor of a (minimised) failing history, for known-finding matching."""
+    if "multi" in cfg:
+        return {"cls": cfg["cls"], "cplx": cfg["cplx"], "ops": ["obj%d:%s" % (o.get("o", 0), o["op"]) for o in ops]}
     kinds = []
     for o in ops:
         k = o["op"]
@@ -855,6 +899,37 @@ def _trunc_data(d, n):
 def simplifications(cfg, ops):
     """Candidate simpler (cfg, ops) pairs, most aggressive first."""
     import copy
+    if "multi" in cfg:
+        # drop one actor together with its operations
+        if len(cfg["multi"]) > 1:
+            for j in range(len(cfg["multi"])):
+                c = copy.deepcopy(cfg)
+                del c["multi"][j]
+                c["cls"] = "multi:" + "+".join(x["cls"] for x in c["multi"])
+                oo = []
+                for o in ops:
+                    if o.get("o", 0) == j:
+                        continue
+                    o2 = dict(o)
+                    if o2.get("o", 0) > j:
+                        o2["o"] -= 1
+                    oo.append(o2)
+                if oo:
+                    yield c, oo
+        for j, sub in enumerate(cfg["multi"]):
+            for n in (8, 12, 16):
+                t = _trunc_data(sub["data"], n)
+                if t is not None:
+                    c = copy.deepcopy(cfg)
+                    c["multi"][j]["data"] = t
+                    c["multi"][j]["N"] = n
+                    yield c, ops
+            for key, val in (("NFFT", None), ("sampling", 1.0), ("scale_by_freq", False)):
+                if sub["init"].get(key) != val:
+                    c = copy.deepcopy(cfg)
+                    c["multi"][j]["init"][key] = val
+                    yield c, ops
+        return
     for n in (8, 12, 16, 24):
         t = _trunc_data(cfg["data"], n)
         if t is not None:
@@ -931,14 +1006,155 @@ ASSUMPTIONS = [
 PLANS = {
     "quick": {
         "strata": [("A1", 10**9), ("A2", 10**9), ("B:fault_free", 5000), ("B:natural", 7000),
-                   ("B:injected", 7000), ("B:mixed", 5000)],
+                   ("B:injected", 7000), ("B:mixed", 5000), ("M:natural", 6000)],
         "opts": {"pristine": True, "pristine_rate": 16, "selftest_n": 40},
         "wall_cap_s": 900,
     },
     "thorough": {
         "strata": [("A1", 10**9), ("A2f", 10**9), ("A3", 10**9), ("B:fault_free", 150000),
-                   ("B:natural", 250000), ("B:injected", 250000), ("B:mixed", 150000)],
+                   ("B:natural", 250000), ("B:injected", 250000), ("B:mixed", 150000), ("M:natural", 200000),
+                   ("M:fault_free", 100000)],
         "opts": {"pristine": True, "pristine_rate": 8, "selftest_n": 100},
         "wall_cap_s": 6 * 3600,
     },
 }
+
+
+# ---------------------------------------------------------------------------
+# several objects alive at once: the scheduler interleaves their operations
+# ---------------------------------------------------------------------------
+
+class MultiRun(object):
+    """Two or three estimator objects of (possibly) different classes live in one process; a seeded
+    scheduler decides which one performs the next operation.  Each object must still satisfy C07 on
+    its own, i.e. nothing another object does may leak into its PSD.  References are evaluated at the
+    end of the run (deferred), so constructing a reference object cannot perturb the interleaving."""
+
+    def __init__(self, cfg, pristine=None):
+        self.cfg = cfg
+        self.actors = [Run(c, pristine=pristine, defer=True, install_plane=False) for c in cfg["multi"]]
+        self.ops = []
+        self.log = []
+        self.violation = None
+        self.init_error = None
+        for a in self.actors:
+            if a.init_error is not None:
+                self.init_error = a.init_error
+        self.cls = cfg["cls"]
+
+    # merged views ---------------------------------------------------------
+    @property
+    def stats(self):
+        out = {}
+        for a in self.actors:
+            for k, v in a.stats.items():
+                out[k] = out.get(k, 0) + v
+        out["multi:runs"] = 1
+        out["multi:actors"] = len(self.actors)
+        return out
+
+    @property
+    def states(self):
+        return set().union(*[a.states for a in self.actors])
+
+    @property
+    def transitions(self):
+        return set().union(*[a.transitions for a in self.actors])
+
+    @property
+    def checked_reads(self):
+        return sum(a.checked_reads for a in self.actors)
+
+    @property
+    def nontrivial(self):
+        return any(a.nontrivial for a in self.actors) and len(set(o.get("o", 0) for o in self.ops)) > 1
+
+    def close(self):
+        for a in self.actors:
+            a.close()
+
+    def step(self, op, aname=None, want_pristine=False):
+        o = op.get("o", 0)
+        if o >= len(self.actors):
+            o = len(self.actors) - 1
+        a = self.actors[o]
+        idx = len(self.ops)
+        self.ops.append(op)
+        inner = {k: v for k, v in op.items() if k != "o"}
+        v = a.step(inner, aname, want_pristine=want_pristine, idx=idx)
+        e = dict(a.log[-1])
+        e["o"] = o
+        self.log.append(e)
+        if v is None:
+            # nothing another object did may move this object's axis either
+            for j, b in enumerate(self.actors):
+                if j == o:
+                    continue
+                try:
+                    ok = abs(b.p.df - b.p.sampling / float(b.p.NFFT)) <= 1e-12 * abs(b.p.sampling / float(b.p.NFFT))
+                except Exception:
+                    ok = False
+                if not ok:
+                    v = Violation("df", idx, "df of object %d changed while object %d performed %r" % (j, o, inner["op"]))
+        if v is not None:
+            self.violation = v
+        return v
+
+    def finalize(self):
+        recs = []
+        for j, a in enumerate(self.actors):
+            for rec in a.pending:
+                recs.append((rec[0], j, rec))
+            a.pending = []
+        for _, j, rec in sorted(recs, key=lambda t: t[0]):
+            v = self.actors[j]._check_against_reference(rec)
+            if v is not None:
+                v.detail = "object %d (%s): %s" % (j, self.actors[j].cls, v.detail)
+                self.violation = v
+                return v
+        return None
+
+    def digest(self):
+        return log_digest(self.log)
+
+
+def run_multi(seed, mode, pristine=None, pristine_final=False):
+    rng = random.Random(seed)
+    k = rng.choice([2, 2, 3])
+    if rng.random() < 0.5:
+        classes = [rng.choice(sut.PARAMETRIC) for _ in range(k)]
+    else:
+        classes = [rng.choice(sut.CLASS_NAMES) for _ in range(k)]
+    cfgs = [gen_cfg(rng, cls=c, N=rng.randrange(12, 33), mode=mode) for c in classes]
+    cfg = {"multi": cfgs, "cls": "multi:" + "+".join(classes), "cplx": cfgs[0]["cplx"], "mode": mode}
+    run = MultiRun(cfg, pristine=pristine)
+    try:
+        if run.init_error is not None:
+            return run
+        weights = [swarm_weights(rng, c["cls"], mode) for c in cfgs]
+        last_kind = ["init"] * k
+        length = rng.choice([4, 6, 8, 12, 16, 24])
+        n = 0
+        while n < length:
+            n += 1
+            o = rng.randrange(k)
+            a = run.actors[o]
+            p_read = 0.5 if last_kind[o] in ("init", "set", "reassign", "failed", "call") else 0.2
+            aname = "read" if rng.random() < p_read else choose(rng, weights[o])
+            op = concretize(aname, rng, a)
+            if op is None:
+                continue
+            op = dict(op)
+            op["o"] = o
+            if run.step(op, aname):
+                return run
+            last_kind[o] = "failed" if run.log[-1]["out"] != "ok" else op["op"]
+        order = list(range(k))
+        rng.shuffle(order)
+        for o in order:
+            if run.step({"op": "read", "o": o}, "read", want_pristine=pristine_final):
+                return run
+        run.finalize()
+        return run
+    finally:
+        run.close()
